@@ -22,7 +22,7 @@ def lockeys(errors, prefix=()):
 
 class C02(Prop):
     ID = "C02"
-    QUICK = 500
+    QUICK = 1100
     THOROUGH = 12000
     RULE = ("case = reference world: root schema with definitions under hostile names, 0-3 external documents (in the "
             "store, behind a counting handler, or missing), references generated from (document, token path) targets "
@@ -36,7 +36,7 @@ class C02(Prop):
                    "Draft 3 required behind a reference are excluded by construction (as the property says)",
                    "O-URI implements RFC 3986 section 5.2; O-PTR RFC 6901"]
     GATES = {"hostile-name": 200, "ref:relative": 100, "ref:fragment-only": 300, "ref:absolute": 100,
-             "remote:store": 100, "remote:handler": 100, "remote:missing": 30, "chain": 100, "nested-id": 40,
+             "remote:store": 100, "remote:store#": 30, "remote:handler": 100, "remote:missing": 30, "chain": 100, "nested-id": 40,
              "sibling-ignored": 100, "remote-internal-ref:fragment-only": 50, "remote-internal-ref:relative": 20, "root-id-trailing-#": 50, "recursive-definition": 50, "traversed>=2": 300}
     MIN_NONTRIVIAL = 300
 
